@@ -357,6 +357,72 @@ pub fn sign_key(alg: Alg, blob: &[u8], msg: &[u8], entry: SignEntry, aux: Option
     SignRec { result, cb_args: Vec::new(), late_callbacks: 0, key_after }
 }
 
+/// One operation on a long-lived `SigningKey` object.
+#[derive(Clone, Debug)]
+pub enum KeyOp {
+    /// `SignerMut::try_sign`
+    TrySign(Vec<u8>),
+    /// `try_sign_with_aux(msg, None)`
+    TrySignAuxNone(Vec<u8>),
+    /// `get_lifetime()`
+    Lifetime,
+    /// read `as_slice()`
+    Bytes,
+    /// overwrite the key through `as_mut_slice()` (same length only)
+    Overwrite(Vec<u8>),
+}
+
+#[derive(Clone, Debug, PartialEq, Eq)]
+pub enum KeyObs {
+    Signed(Out<Vec<u8>>),
+    Lifetime(Out<u64>),
+    Bytes(Vec<u8>),
+    Overwritten(bool),
+}
+
+/// Run a sequence of operations on ONE `SigningKey` object that lives for the whole sequence —
+/// the object `keygen` returned (`from_keygen`) or one loaded with `from_bytes(start)`.  Every
+/// other helper in this file creates a fresh object per call; state that a key object carries
+/// besides its bytes is only visible here.  Returns the verifying key bytes (if generated) and
+/// one observation per operation; `None` if the object could not be created.
+pub fn key_object_session(alg: Alg, levels: &[Level], seed: &[u8], from_keygen: bool, start: &[u8], ops: &[KeyOp]) -> Option<(Vec<u8>, Vec<KeyObs>)> {
+    with_hash!(alg, H, {
+        let created = guard(|| {
+            if from_keygen {
+                let params = lib_params::<H>(levels);
+                hbs_lms::keygen::<H>(&params, &seed_of::<H>(seed), None).ok().map(|(sk, vk)| (sk, vk.as_slice().to_vec()))
+            } else {
+                SigningKey::<H>::from_bytes(start).ok().map(|sk| (sk, Vec::new()))
+            }
+        });
+        let (mut key, vk) = match created {
+            Ok(Some(x)) => x,
+            _ => return None,
+        };
+        let mut obs = Vec::with_capacity(ops.len());
+        for op in ops {
+            let k = &mut key;
+            let o = match op {
+                KeyOp::TrySign(m) => KeyObs::Signed(out_of(guard(|| k.try_sign(m).map(|s| s.as_ref().to_vec())))),
+                KeyOp::TrySignAuxNone(m) => KeyObs::Signed(out_of(guard(|| k.try_sign_with_aux(m, None).map(|s| s.as_ref().to_vec())))),
+                KeyOp::Lifetime => KeyObs::Lifetime(out_of(guard(|| k.get_lifetime()))),
+                KeyOp::Bytes => KeyObs::Bytes(k.as_slice().to_vec()),
+                KeyOp::Overwrite(b) => {
+                    let dst = k.as_mut_slice();
+                    if dst.len() == b.len() {
+                        dst.copy_from_slice(b);
+                        KeyObs::Overwritten(true)
+                    } else {
+                        KeyObs::Overwritten(false)
+                    }
+                }
+            };
+            obs.push(o);
+        }
+        Some((vk, obs))
+    })
+}
+
 pub fn signing_key_from_bytes(alg: Alg, blob: &[u8]) -> Out<Vec<u8>> {
     with_hash!(alg, H, {
         out_of(guard(|| SigningKey::<H>::from_bytes(blob).map(|k| k.as_slice().to_vec())))
